@@ -10,7 +10,7 @@ from __future__ import annotations
 
 import numpy as np
 
-from tvf import farm, runs
+from tvf import attach, farm, runs
 from tvf.env import Check, fmt_exc
 
 
@@ -18,11 +18,18 @@ def pair(cfg, c, seed):
     out = {}
     for tag, shift in (("a", 0.0), ("b", c)):
         cc = dict(cfg, seed=seed, shift=shift)
+        cc.pop("pin_limit", None)
         try:
-            s, t, like, pt = runs.run(cc)
+            with attach.Hooks() as hk:
+                # optional injected decision (same in both runs of the pair): an iteration is decided at a temperature in the
+                # last 1e-4 below one, which ordinary schedules step over
+                pl = attach.pin_limit(hk, cfg.get("pin_limit"))
+                s, t, like, pt = runs.run(cc)
         except Exception as e:
             return [("run-raises", f"shift={shift}: {type(e).__name__}: {e}")], 0
         H = runs.history(s)
+        if cfg.get("pin_limit") is not None and not pl["n"]:
+            return [], -1       # no iteration of this run had an ESS limit of exactly 1.0 late enough: nothing was injected
         x, w, l = s.posterior(trim_importance_weights=False)
         out[tag] = dict(H=H, w=w, logz=float(s.evidence()[0]))
     A, B = out["a"], out["b"]
@@ -61,6 +68,11 @@ def pair(cfg, c, seed):
 
 def cell(cfg, c, seeds):
     bad, T = pair(cfg, c, seeds[0])
+    if T == -1:
+        for sd in seeds[1:4]:       # the injection needs an iteration whose ESS limit is 1.0 late in the run: try other seeds
+            bad, T = pair(cfg, c, sd)
+            if T != -1:
+                break
     if not bad:
         return [], T, 1
     # reproduce on 3 further seeds
@@ -91,7 +103,14 @@ def run():
     for j, (c, kern) in enumerate(ck.pick([(math.pi * 100, "tpcn"), (-math.e, "rwm")], [(math.pi * 100, "tpcn"), (-math.e, "rwm"), (1 / 3, "tpcn"), (-math.sqrt(2) * 300, "rwm")])):
         big = dict(target=["gauss2", "bimodal"][j % 2], N=256, n_total=4096, kernel=kern, resample=["mult", "syst"][j % 2], clustering=bool(j % 2), mode="vec")
         tasks.append(("tvf.checks.c10:cell", dict(cfg=big, c=float(c), seeds=[ck.subseed("big", j, r) % 10 ** 6 for r in range(4)]), None))
-    for i in range(len(tasks)):
+    lp = [1 - 5e-5, 1 - 2 ** -14, 1 - 9.9e-5, 1 - 1e-6]
+    npin = ck.pick(8, 48)
+    for j in range(npin):
+        cfgp = {k: v for k, v in runs.small_cfg(j + 2).items() if k != "seed"}
+        cfgp.update(volume_variation=[None, 1.0][j % 2], pin_limit=lp[j % len(lp)])
+        tasks.append(("tvf.checks.c10:cell", dict(cfg=cfgp, c=float([1e3, -1e3, 100 * math.sqrt(2), -37.25][j % 4]),
+                                                   seeds=[ck.subseed("pin", j, r) % 10 ** 6 for r in range(4)]), None))
+    for i in range(len(tasks) - npin):
         if i % 3 == 1:     # a third of the small cells use an irrational shift as well
             tasks[i][1]["c"] = float(tasks[i][1]["c"] * math.sqrt(2) / 1.4)
     for i, st, val in farm.run(tasks, timeout=900, progress="C10"):
@@ -103,11 +122,13 @@ def run():
             ck.violation("pair-crashed", f"{kw['cfg']}: {st} {str(val)[-300:]}", kw)
             continue
         bad, T, npairs = val
+        if kw["cfg"].get("pin_limit") is not None:
+            ck.event("pairs in which the ESS limit of one iteration was injected inside the last 2e-4 below one", int(T > 0))
         ck.case(dict(cfg=kw["cfg"], c=kw["c"]), nontrivial=T > 2)
         ck.event("same-seed (logL, logL+c) pairs compared", npairs)
         for key, what in bad:
             ck.violation(key, what + f"  [c={kw['c']}]", kw)
-    ck.require_events("same-seed (logL, logL+c) pairs compared")
+    ck.require_events("same-seed (logL, logL+c) pairs compared", "pairs in which the ESS limit of one iteration was injected inside the last 2e-4 below one")
     return ck.finish(
         rule="configurations from runs.small_cfg (kernel x resampler x clustering x vec/scalar/blobs x target) x metric mode x shifts in "
              "{+-1e3, +-37.5, 1e-3, -0.731, 512, -999.99}; pairs run under one seed; non-trivial = more than two iterations",
